@@ -46,6 +46,21 @@ reg("C09",
     "pinned tree), reference dictionary/encoder.",
     "property-based testing against a reference command table (Hypothesis)", "DESIGN.md#c09")
 
+reg("C10",
+    "Exhaustive table checks (uniqueness of (vendor, code) over every DiameterAVP subclass; every class against the vendored "
+    "dictionary, docs/list-of-avps.md and definitions.py) plus, for every class, an exhaustive table of out-of-domain value kinds "
+    "per data type (wrong widths 0..12, wrong Python types, non-members, wrong address family/width, non-aaa URIs, missing "
+    "mandatory members, garbage bytes) and Hypothesis-generated in-domain values whose encoding is read back with the reference decoder.",
+    "Trusted: ref/avp_dictionary.json (fixed snapshot audited against docs and definitions.py), the domain table bad_values() in "
+    "vf/checks/c10.py. Not judged: ints/bools for Address, Address families other than 1/2, URI port/transport grammar.",
+    "exhaustive table comparison + property-based domain/boundary testing", "DESIGN.md#c10")
+reg("C20",
+    "Exhaustive enumeration of (boundary word set x 32 indices x test/set/unset) on two Unsigned32 classes plus Hypothesis-generated "
+    "random words, out-of-range indices, IPv4/IPv6 literals by structure and datetimes 1900..2036, against integer arithmetic, "
+    "socket.inet_pton and ordinal-day arithmetic.",
+    "Trusted: Python int arithmetic, socket.inet_pton, datetime.toordinal. Naive datetimes, literals without scope id.",
+    "exhaustive enumeration + property-based testing against arithmetic oracles", "DESIGN.md#c20")
+
 ALL = [f"C{i:02d}" for i in range(1, 21)]
 
 def main():
